@@ -16,7 +16,7 @@ RULE = ('random histories (quick: 8 steps, thorough: 30) over {orthonormalize MP
 def _shard(name, shard, nshards, tier, seed):
     c = Corr(name)
     rng = np.random.default_rng([seed, shard, 2])
-    n = (800 if tier == 'quick' else 3200) // nshards + 1
+    n = (800 if tier == "quick" else 12000) // nshards + 1
     nsteps = 8 if tier == 'quick' else 30
     ops, impls, sigs = [], [], []
     for _ in range(n):
@@ -56,7 +56,7 @@ def _shard_ctor(name, shard, nshards, tier, seed):
     from .. import gen
     c = Corr(name)
     rng = np.random.default_rng([seed, shard, 22])
-    n = (240 if tier == 'quick' else 2400) // nshards + 1
+    n = (240 if tier == "quick" else 9600) // nshards + 1
     ops, impls, sigs = [], [], []
     for _ in range(n):
         L = int(rng.integers(0, 4)); d = int(rng.integers(1, 4))
